@@ -776,6 +776,17 @@ func checkAndPropagateArgsForUnionWithReturnT(
 		// methodTs point into the shared method table: accumulate on copies
 		currentT := methodTs[idx].DeepCopy()
 
+		// a declared return type Self means this member of the union receiver
+		if currentT.GetType() == base.SELF {
+			for _, variantT := range m.evaluatedObjectT.GetVariants() {
+				if variantT.GetObjectClass() == class {
+					currentT = variantT.DeepCopy()
+
+					break
+				}
+			}
+		}
+
 		if returnT == nil {
 			returnT = currentT
 
